@@ -146,7 +146,7 @@ mut("C18-revert-cpp-stub-close-check", "gencpp.c",
 
 
 mut("C09-revert-memory-map-table-bound", "os_unix.c",
-    "#define MAX_MMAPS 4096\n", "#define MAX_MMAPS 30\n#define exit(x) ((void) 0)\n")
+    "#define MAX_MMAPS 4096\n", "#define MAX_MMAPS 30\n")
 
 
 def main():
